@@ -10,6 +10,8 @@ from mc.core import run as run_plan
 from mc.structkey import ekey
 
 ID = "C19"
+LARGE_PROGRAMS = [("TL:5", ["set_index_u"]), ("TL:5", ["sort_u"]), ("TL:5", ["set_index_a"]), ("TL:5", ["sort_a"]), ("TL:4", ["set_index_u", "proj_ab"]),
+                  ("TL:5", ["filt_a_gt2", "set_index_u"]), ("TL:5", ["dropdup_a"]), ("TL:5", ["gb_a_sum_so2"]), ("TL:5", ["merge_T2_inner"]), ("TL:5", ["sort_b_desc"])]
 
 
 class Counters:
@@ -281,7 +283,9 @@ def run(ctx):
             if r["status"] == "ok" and len(case["ops"]) == len(tiers):
                 ctx.sample(explore.prog_key(case), cap=10)
     ctx.cov["max_rewrite_counts_observed"] = maxc
-    # cross-interpreter determinism
+    # cross-interpreter determinism (plus a 120-row table: data-dependent planning such as
+    # quantile sampling only depends on its random state when partitions are large enough)
+    okcases += [{"src": src, "ops": ops} for src, ops in LARGE_PROGRAMS]
     bad, n = cross_seed(okcases)
     ctx.cov["cross_seed_programs"] = n
     ctx.cov["cross_seed_interpreters"] = 4
